@@ -101,6 +101,21 @@ def handleDet (st : St) (fid det impl : String) : Verdict :=
             (match dbmOracleOn f.tree locs with | none => ("ok", "") | some w => ("VIOL", w))
           else if det == "unprotected_selfdestruct_vulnerability" then
             (match selfdestructOracleOn f.tree locs with | none => ("ok", "") | some w => ("VIOL", w))
+          else if det == "constant_variable_optimization" || det == "sstore_optimization" then
+            if !stateNamesUnique f.tree then ("na", "state-variable names not unique / shadowed")
+            else
+              let want := canonLocs ((if det == "sstore_optimization" then expectedSstore else expectedConstant) f.tree)
+              if want == locs then ("ok", "") else ("VIOL", s!"expected {fmtLocs want}")
+          else if det == "immutable_variables_optimization" then
+            if !stateNamesUnique f.tree then ("na", "state-variable names not unique / shadowed")
+            else
+              (match immutableOracle f.tree locs with
+               | .ok => ("ok", "")
+               | .unsound w => ("VIOL", w)
+               | .missedK1 n => ("VIOL", s!"K1: value-typed `{n}` assigned in a constructor only from string/abi.*/bytes(..)-shaped right-hand sides is not suggested")
+               | .missed n => ("VIOL", s!"value-typed `{n}` assigned in a constructor and unwritten elsewhere is not suggested"))
+          else if det == "memory_to_calldata_optimization" then
+            (match memoryToCalldataOracle f.tree locs with | none => ("ok", "") | some w => ("VIOL", w))
           else if versionGated.contains det then
             (match expectedVersionGated det f.tree with
              | some e =>
